@@ -43,9 +43,25 @@ var c19Keys = map[string][]string{
 	"unfreeze":        {oracle.AnnRolloutFrozen},
 }
 
+// c19Interleave, when set, is run once between the command's reads and its first write: a controller
+// (or anything else) touches the objects while the command is in flight.
+var c19Interleave func()
+
 func c19Run(c *sim.Cluster, cmd, ns, name string) (string, error) {
 	var out bytes.Buffer
 	cl := c.ClientFor("plugin")
+	if hook := c19Interleave; hook != nil {
+		fired := false
+		prev := c.Faults
+		c.Faults = func(call *sim.Call) sim.FaultKind {
+			if call.Actor == "plugin" && call.Write && !fired {
+				fired = true
+				hook()
+			}
+			return sim.FaultNone
+		}
+		defer func() { c.Faults = prev }()
+	}
 	var err error
 	switch cmd {
 	case "canary-pause":
@@ -196,16 +212,45 @@ func TestC19Commands(t *testing.T) {
 				pre = !canaryActive
 			}
 			classes = append(classes, "state-"+string(e.Status.State))
+			// sometimes a controller reconcile lands between the command's Get and its write
+			inter := rapid.SampledFrom([]string{"none", "none", "ers", "eds"}).Draw(rt, fmt.Sprintf("interleave%d", ci))
+			var interPre, interPost *sim.Snapshot
+			c19Interleave = nil
+			if inter != "none" {
+				c19Interleave = func() {
+					interPre = w.C.Snapshot()
+					w.C.Advance(11 * time.Second)
+					if inter == "eds" {
+						w.reconcile(sim.ActorEDS, k.Namespace, k.Name)
+					} else {
+						for _, rs := range w.rsOf(k) {
+							w.reconcile(sim.ActorERS, rs.Namespace, rs.Name)
+						}
+					}
+					interPost = w.C.Snapshot()
+				}
+				classes = append(classes, "controller-write-during-command")
+			}
 			before := w.C.Snapshot()
 			first := len(w.C.Calls)
 			out, err := c19Run(w.C, cmd, k.Namespace, k.Name)
+			c19Interleave = nil
 			after := w.C.Snapshot()
+			if interPost != nil {
+				// judge the command against the state right after the interleaved reconcile
+				before = interPost
+			}
+			_ = interPre
 			w.Cmds++
 			w.C.Tracef("command %s (precondition %v, state %q) -> err=%v %s", cmd, pre, e.Status.State, err, strings.TrimSpace(out))
 			writes := 0
+			applied := 0
 			for _, call := range w.C.Calls[first:] {
-				if call.Write {
+				if call.Write && call.Actor == "plugin" {
 					writes++
+					if call.Applied {
+						applied++
+					}
 				}
 			}
 			changed := !reflect.DeepEqual(c19Diff(before, after, "none", "", "", ""), []string(nil))
@@ -220,8 +265,8 @@ func TestC19Commands(t *testing.T) {
 			if !pre && err == nil {
 				fail("C19/commands/"+cmd+"/acts-without-precondition", fmt.Sprintf("%s succeeded although its precondition does not hold (status.canary set: %v)", cmd, canaryActive))
 			}
-			if err != nil && (writes > 0 || changed) {
-				fail("C19/commands/"+cmd+"/writes-although-refusing", fmt.Sprintf("%s returned %v but issued %d writes", cmd, err, writes))
+			if err != nil && (applied > 0 || changed) {
+				fail("C19/commands/"+cmd+"/writes-although-refusing", fmt.Sprintf("%s returned %v but %d of its writes were applied", cmd, err, applied))
 			}
 			if d := c19Diff(before, after, cmd, k.Namespace, k.Name, canaryRS); len(d) > 0 {
 				fail("C19/commands/"+cmd+"/touches-more-than-documented", fmt.Sprintf("%s changed: %s", cmd, strings.Join(d, "; ")))
